@@ -39,6 +39,9 @@ def gen_bm(rng, m, cfg):
     seg = rng.choice(b['segments'])
     num = seg['address'] if rng.random() < 0.9 else rng.randrange(200, 250)
     k = rng.random()
+    if rng.random() < 0.06:
+        # the detector's confidence changes (void / freeze / no signal): it says nothing about occupancy or addresses, which keep their rules
+        return addr, C('MSG_BM_CONFIDENCE'), bytes([rng.choice([0, 1, 0xFF]), rng.choice([0, 1]), rng.choice([0, 7])])
     if k < 0.15:
         return addr, C('MSG_BM_OCC'), bytes([num])
     if k < 0.3:
